@@ -26,6 +26,9 @@ type normalizer struct {
 	out    []string
 	// subst: a local defined as `v := E` whose only later use is `&v`: that use is rendered as ptr(E)
 	subst map[types.Object][]string
+	// inline: a temporary defined as `v := E` whose only use is as the whole right-hand side / result of the next statement
+	// is rendered as E there
+	inline map[types.Object][]string
 }
 
 // TwinName maps an identifier of the interface{} family to its generic twin's name.
@@ -165,6 +168,10 @@ func (n *normalizer) expr(e ast.Expr) {
 	case *ast.ParenExpr:
 		n.expr(x.X)
 	case *ast.Ident:
+		if toks, has := n.inline[n.info.ObjectOf(x)]; has && n.info.ObjectOf(x) != nil {
+			n.emit(toks...)
+			return
+		}
 		n.emit(n.ident(x))
 	case *ast.BasicLit:
 		n.emit(x.Value)
@@ -397,6 +404,32 @@ func (n *normalizer) block(b *ast.BlockStmt) {
 						}
 					}
 				}
+			}
+		}
+		// idiom: a temporary - `v := E` (or `var v T = E`) used exactly once, as the whole value assigned or returned by the
+		// very next statement (`w := v`, `x = v`, `var w T = v`, `return v`)
+		if lhs, rhs := defOf(stmts[i]); lhs != nil && i+1 < len(stmts) && n.info.ObjectOf(lhs) != nil {
+			obj := n.info.ObjectOf(lhs)
+			uses := 0
+			for _, later := range stmts[i+1:] {
+				ast.Inspect(later, func(nd ast.Node) bool {
+					if y, isID := nd.(*ast.Ident); isID && n.info.ObjectOf(y) == obj {
+						uses++
+					}
+					return true
+				})
+			}
+			if uses == 1 && wholeOperand(n.info, stmts[i+1], obj) {
+				save := n.out
+				n.out = nil
+				n.expr(rhs)
+				toks := n.out
+				n.out = save
+				if n.inline == nil {
+					n.inline = map[types.Object][]string{}
+				}
+				n.inline[obj] = toks
+				continue
 			}
 		}
 		// idiom: v := E ; … exactly one later use of v in this block, namely &v (x = &v / f(&v))
@@ -680,4 +713,55 @@ func NormalForm(info *types.Info, fd *ast.FuncDecl, fresh func(*ast.CallExpr) bo
 	}
 	n.block(fd.Body)
 	return n.out
+}
+
+
+// defOf: s defines exactly one local with a value (`v := E` / `var v T = E`).
+func defOf(s ast.Stmt) (*ast.Ident, ast.Expr) {
+	switch x := s.(type) {
+	case *ast.AssignStmt:
+		if x.Tok == token.DEFINE && len(x.Lhs) == 1 && len(x.Rhs) == 1 {
+			if id, ok := x.Lhs[0].(*ast.Ident); ok && id.Name != "_" {
+				return id, x.Rhs[0]
+			}
+		}
+	case *ast.DeclStmt:
+		if gd, ok := x.Decl.(*ast.GenDecl); ok && gd.Tok == token.VAR && len(gd.Specs) == 1 {
+			if vs, ok := gd.Specs[0].(*ast.ValueSpec); ok && len(vs.Names) == 1 && len(vs.Values) == 1 && vs.Names[0].Name != "_" {
+				return vs.Names[0], vs.Values[0]
+			}
+		}
+	}
+	return nil, nil
+}
+
+// wholeOperand: in statement s the object is the entire value assigned, declared or returned (nothing else is evaluated
+// between its definition and that use).
+func wholeOperand(info *types.Info, s ast.Stmt, obj types.Object) bool {
+	is := func(e ast.Expr) bool {
+		for {
+			p, ok := e.(*ast.ParenExpr)
+			if !ok {
+				break
+			}
+			e = p.X
+		}
+		id, ok := e.(*ast.Ident)
+		return ok && info.ObjectOf(id) == obj
+	}
+	switch x := s.(type) {
+	case *ast.ReturnStmt:
+		return len(x.Results) == 1 && is(x.Results[0])
+	case *ast.AssignStmt:
+		if len(x.Rhs) != 1 || len(x.Lhs) != 1 || !is(x.Rhs[0]) {
+			return false
+		}
+		_, plain := x.Lhs[0].(*ast.Ident)
+		return plain
+	case *ast.DeclStmt:
+		if _, rhs := defOf(s); rhs != nil {
+			return is(rhs)
+		}
+	}
+	return false
 }
